@@ -8,6 +8,7 @@ import (
 	"strings"
 
 	"golang.org/x/tools/go/packages"
+	"verif.local/gcsim/simrt"
 
 	"github.com/go-critic/go-critic/linter"
 )
@@ -22,6 +23,9 @@ type RefEntry struct {
 	Panic string   `json:"panic,omitempty"`
 	Err   string   `json:"err,omitempty"`   // constructor error
 	Other []string `json:"other,omitempty"` // front-end level: printed records that are not diagnostics
+	// Atomic: this checker, run alone over this file, passed at least one atomic
+	// operation of the instrumented packages (it touches lock-free shared code)
+	Atomic bool `json:"atomic,omitempty"`
 }
 
 type RefTable struct {
@@ -226,6 +230,8 @@ func (w *Worker) computeRefCLI(info *linter.CheckerInfo, params map[string]any, 
 			}
 		}
 	}()
+	atomic0 := simrt.AtomicSeen()
+	defer func() { e.Atomic = simrt.AtomicSeen() > atomic0 }()
 	fe := w.runFrontEnd(wl.Args(), ref, []*packages.Package{cp.ViewPermuted([]int{file}, declSeed)}, nil, nil)
 	switch {
 	case fe.Fatal != "":
